@@ -1003,6 +1003,18 @@ def reuse_case(rng, tier):
     """operands that are used first (derived quantities, the expression itself), then changed in place
     through public calls, then used again; the model sees the state they report afterwards"""
     c = expr_case(rng, "quick", kind="reuse")
+    norm_probe = rng.random() < 0.3
+    if norm_probe:
+        # an expression that goes through Field.norm (angle), evaluated before and after a write into the array
+        meshes = [gen_mesh(rng, tier)]
+        gen = Gen(rng, tier, "exact", meshes, allow_cplx=False)
+        k = rng.choice([2, 3])
+        a = gen.leaf(k, dtype="float", reuse=False)
+        b = gen.vec(k, False) if rng.random() < 0.5 else gen.leaf(k, dtype="float", reuse=False)
+        e = ["bin", "angle", None, a, b]
+        if rng.random() < 0.4:
+            e = ["bin", rng.choice(["mul", "add"]), None, e, gen.leaf(1, dtype="float", reuse=False)]
+        c = dict(kind="reuse", regime="exact", meshes=meshes, fields=gen.fields, expr=e, expect="free")
     c["own_mesh"] = True
     nd = len(c["meshes"][0]["n"])
     steps = []
@@ -1031,6 +1043,10 @@ def reuse_case(rng, tier):
         if st["which"] != "all" and op in ("translate", "scale", "region_translate", "region_scale"):
             uniform = False
         steps.append(st)
+    if norm_probe:
+        steps.insert(rng.randrange(len(steps) + 1),
+                     dict(op=rng.choice(["write", "imul"]), which=0, salt=1, c=rng.choice([2, 3]), stride=rng.choice([1, 2]),
+                          vals=[rnum(rng, "exact") for _ in range(7)]))
     c["steps"] = steps
     c["expect"] = "accept" if uniform and c["expect"] == "accept" else "free"
     if any(s_["op"] == "rot" for s_ in steps):
